@@ -186,6 +186,28 @@ Theorem C20_query_complete :
 Proof. exact relay_query_complete. Qed.
 Print Assumptions C20_query_complete.
 
+(* the key path the client prints from the store name and the answer's key (KeyPath.String) is
+   parsed back by ProofOperators.Verify (KeyPathToKeys) into exactly those keys: for every
+   non-empty key path, every byte string as a key, URL and hex encoding alike (repair F58: the
+   unrepaired String printed a URL-encoded key starting with "x:" verbatim, which parses as a
+   hex-encoded key - C20_F58_witness).  This is what makes "the proof operators accept the key
+   path" in C20_query_sound a statement about the answer's own key. *)
+Theorem C20_keypath_roundtrip :
+  forall kp : list key,
+    kp <> [] -> Forall (fun k => Forall (fun c => (c < 256)%N) (fst k)) kp ->
+    key_path_to_keys (kp_string kp) = Some (map fst kp).
+Proof. exact keypath_roundtrip. Qed.
+Print Assumptions C20_keypath_roundtrip.
+
+(* ... so two key paths that print alike name the same keys *)
+Theorem C20_keypath_binds :
+  forall kp kp' : list key,
+    kp <> [] -> Forall (fun k => Forall (fun c => (c < 256)%N) (fst k)) kp ->
+    Forall (fun k => Forall (fun c => (c < 256)%N) (fst k)) kp' ->
+    kp_string kp = kp_string kp' -> map fst kp = map fst kp'.
+Proof. exact kp_string_binds. Qed.
+Print Assumptions C20_keypath_binds.
+
 (* ---------------------------------------------------------------- ConsensusParams *)
 
 Theorem C20_params_sound_complete :
@@ -312,6 +334,24 @@ Example C20_index_needs_total :
   txproof_validate sha256 (txs_root sha256 ex_txs) p = true /\
   txproof_validate sha256 (txs_root sha256 ex_txs) q = true.
 Proof. vm_compute. split; reflexivity. Qed.
+
+(* key paths on concrete data: "/acc/a+b/x:00FF2F" round-trips ('+' stays '+', '/' and ' ' are
+   %-escaped, raw bytes in hex); the sibling keys "a+b" / "a b" and "a%2Fb" / "a/b" print
+   differently.  F58: the URL-encoded key "x:6162" is printed "x%3A6162" and parses back; printed
+   verbatim, as the unrepaired String did, it parses as the hex-encoded key "ab". *)
+Example C20_keypath_nonvacuous_and_F58_witness :
+  let acc := [97; 99; 99]%N in
+  key_path_to_keys (kp_string [(acc, EncURL); ([97; 43; 98]%N, EncURL); ([0; 255; 47]%N, EncHex)])
+    = Some [acc; [97; 43; 98]%N; [0; 255; 47]%N] /\
+  kp_string [([97; 43; 98]%N, EncURL)] = [47; 97; 43; 98]%N /\
+  kp_string [([97; 32; 98]%N, EncURL)] = [47; 97; 37; 50; 48; 98]%N /\
+  kp_string [([97; 47; 98]%N, EncURL)] = [47; 97; 37; 50; 70; 98]%N /\
+  kp_string [([97; 37; 50; 70; 98]%N, EncURL)] = [47; 97; 37; 50; 53; 50; 70; 98]%N /\
+  kp_string [([120; 58; 54; 49; 54; 50]%N, EncURL)] = [47; 120; 37; 51; 65; 54; 49; 54; 50]%N /\
+  key_path_to_keys [47; 120; 37; 51; 65; 54; 49; 54; 50]%N = Some [[120; 58; 54; 49; 54; 50]%N] /\
+  key_path_to_keys [47; 120; 58; 54; 49; 54; 50]%N = Some [[97; 98]%N] /\
+  key_path_to_keys [] = None /\ key_path_to_keys [47; 37; 52]%N = None /\ key_path_to_keys [47; 120; 58; 52]%N = None.
+Proof. vm_compute. repeat split; reflexivity. Qed.
 
 (* the honest results of block 2 are relayed against header 3; a changed gas figure or a wrong
    height label is refused.  F11: the hash the unrepaired client computed — the Merkle root of
